@@ -208,4 +208,4 @@ func Harness_C14_dom_n5()         { c14Dom(5, false, 2) }
 func Harness_C14_dom_n6()         { c14Dom(6, false, 2) }
 
 func Harness_C14_dom_n8_sampled()  { c14DomSampled(8, 400) }
-func Harness_C14_dom_n10_sampled() { c14DomSampled(10, 4000) }
+func Harness_C14_dom_n10_sampled() { c14DomSampled(10, 2000) }
